@@ -22,12 +22,14 @@ Print Assumptions C14_total.
 Corollary C14_onmatch : forall q lm cur y w v, do_assignment q lm cur y = Some (w, v) -> onmatch q = true -> lm = false ->
   w = false /\ (nocontrib q = false -> v = false).
 Proof. exact onmatch_gates. Qed.
+Print Assumptions C14_onmatch.
 
 (** latch never votes negative (and never overwrites) *)
 Corollary C14_latch : forall q lm cur y w v, do_assignment q lm cur y = Some (w, v) ->
   latch q = true -> onchange q = false -> is_none cur = false -> gate q lm = true -> asbool_q q = false ->
   v = true /\ (w = true -> False).
 Proof. exact latch_never_negative. Qed.
+Print Assumptions C14_latch.
 
 (** nocontrib makes the vote neutral *)
 Corollary C14_nocontrib : forall q lm cur y w v, do_assignment q lm cur y = Some (w, v) -> nocontrib q = true -> v = true.
